@@ -21,7 +21,7 @@ AddrOf(ev) == val.vals[ev.field].addr
 \* Parse event already carries the verdict and the events after it cannot be judged
 HasVal == val.k = "struct"
 Clauses(ev) ==
-  IF ev.ev \in {"Deref", "Arith", "Dump"} /\ ~HasVal THEN {"SKIP:after-rejected-parse"} ELSE
+  IF ev.ev \in {"Deref", "DerefFault", "Arith", "Dump"} /\ ~HasVal THEN {"SKIP:after-rejected-parse"} ELSE
   CASE ev.ev = "Parse" ->
          LET r == Decode(ev.type, ev.mode, ev.input, ev.start, << >>, ev.consts) IN
          (IF r.ok /\ ev.obs.status = "ok" /\ ev.obs.v = r.v THEN {} ELSE {"parse"})
@@ -32,6 +32,8 @@ Clauses(ev) ==
          (IF ev.obs.status = d.status /\ (d.status = "ok" => ev.obs.v = d.v) THEN {} ELSE {"deref"})
          \cup (IF hasStream /\ ev.obs.pos # pos THEN {"moved"} ELSE {})
          \cup (IF ev.obs.status = "ok" /\ ~ev.obs.again_same THEN {"unstable"} ELSE {})
+    \* the stream raised during the dereference: whatever is reported, the stream is where it was
+    [] ev.ev = "DerefFault" -> IF hasStream /\ ev.obs.pos # pos THEN {"moved"} ELSE {}
     [] ev.ev = "Arith" ->
          LET a == ToInt(AddrOf(ev))
              na == ArithAddr(ev.op, a, ev.n)
